@@ -20,16 +20,17 @@ import (
 const childEnv = "VERIF_CALLS_CHILD"
 
 type childScript struct {
-	Need      int    `json:"need"`
-	Answered  int    `json:"answered"`
-	Fault     string `json:"fault"` // none | stall | selfkill | exit | closeout  (stall also serves "the parent kills me")
-	Off       int    `json:"off"`   // bytes of answer number `Answered` written before the fault; -1 = none of it
-	Fifo      string `json:"fifo"`
-	Go        string `json:"go"` // FIFO on which the parent says "go" once the answered calls have returned
-	IgnoreInt bool   `json:"ignoreInt"`
-	Init      string `json:"init"`   // how the handshake goes: "" answers initialize | silent (reads on, never answers) | noread (never reads its stdin at all) | error | garbage | exit (leaves when initialize arrives)
-	SrvReq    string `json:"srvReq"` // non-empty: after the handshake write a request with this method to the client, then stop reading
-	Helper    int    `json:"helper"` // > 0: before anything else start a helper process (this binary again, sleeping that many seconds) that inherits this process' stderr and is left behind
+	Need       int    `json:"need"`
+	Answered   int    `json:"answered"`
+	Fault      string `json:"fault"` // none | stall | selfkill | exit | closeout  (stall also serves "the parent kills me")
+	Off        int    `json:"off"`   // bytes of answer number `Answered` written before the fault; -1 = none of it
+	Fifo       string `json:"fifo"`
+	Go         string `json:"go"` // FIFO on which the parent says "go" once the answered calls have returned
+	IgnoreInt  bool   `json:"ignoreInt"`
+	Init       string `json:"init"`       // how the handshake goes: "" answers initialize | silent (reads on, never answers) | noread (never reads its stdin at all) | error | garbage | exit (leaves when initialize arrives)
+	StallFirst bool   `json:"stallFirst"` // the first tools/call is never answered, every later one at once
+	SrvReq     string `json:"srvReq"`     // non-empty: after the handshake write a request with this method to the client, then stop reading
+	Helper     int    `json:"helper"`     // > 0: before anything else start a helper process (this binary again, sleeping that many seconds) that inherits this process' stderr and is left behind
 }
 
 // sleeperEnv: this binary re-executed as the helper a scripted stdio peer leaves behind: it holds the stderr it inherited and
@@ -175,6 +176,11 @@ func childMain(raw string) {
 				mark("ready")
 				os.Exit(0)
 			}
+			continue
+		}
+		if sc.StallFirst && !acted {
+			acted = true
+			mark("arrived")
 			continue
 		}
 		if sc.Fault == "none" {
